@@ -178,8 +178,18 @@ def _carriers(ctx, cf, fp):
         sid = v.cfg_id(n)
         if sid is None or sid == cid or not v.cfg.dominates(sid, cid):
             continue
-        # the filters are not re-assigned afterwards (the carrier would be stale)
-        out[n.targets[0].id] = used
+        # a carrier speaks for the filters where it is USED in their place: as an argument of the call, or in a test the call stands
+        # under.  (`as_source = self.get_source_edges(node, order=order, size=size)` before `self.get_target_edges(node, order=order,
+        # size=size)` is a result computed with the filters, not their stand-in)
+        cname = n.targets[0].id
+        in_call = any(isinstance(x, ast.Name) and x.id == cname for a_ in list(cf.node.args) + [k.value for k in cf.node.keywords] for x in ast.walk(a_))
+        in_test = any(isinstance(x, ast.Name) and x.id == cname for i_ in v.enclosing_all(cf.node, (ast.If, ast.IfExp, ast.While)) for x in ast.walk(i_.test))
+        if cname not in fp and not in_call and not in_test:
+            # an early exit under a test of the carrier (`if selection is None: return ...`) also counts
+            early = any(isinstance(i_, ast.If) and any(isinstance(x, ast.Name) and x.id == cname for x in ast.walk(i_.test)) for i_ in walk_no_nested(cf.caller.node))
+            if not early:
+                continue
+        out[cname] = used
     return out
 
 
